@@ -57,6 +57,11 @@ var c09iMdPool = [][]string{
 
 type c09iCase struct {
 	Reqs []c09iReq `json:"reqs"`
+	// Overlap: the calls are in flight TOGETHER through one interceptor value (every
+	// admitted call parks in its handler until all have started); Order is the order in
+	// which they are then completed (indices into Reqs, taken modulo what is left)
+	Overlap bool  `json:"ov,omitempty"`
+	Order   []int `json:"ord,omitempty"`
 }
 
 type c09iErr struct{}
@@ -83,7 +88,143 @@ func (s *c09iShedder) Allow() (load.Promise, error) {
 	return s.last, nil
 }
 
+func c09iHandlerResult(beh string) (interface{}, error) {
+	switch beh {
+	case "canceled":
+		return nil, context.Canceled
+	case "wrapped-deadline":
+		return nil, fmt.Errorf("c09: %w", context.DeadlineExceeded)
+	case "status-deadline":
+		return nil, status.Error(codes.DeadlineExceeded, "c09")
+	case "status-canceled":
+		return nil, status.Error(codes.Canceled, "c09")
+	case "status-unavailable":
+		return nil, status.Error(codes.Unavailable, "c09")
+	case "status-exhausted":
+		return nil, status.Error(codes.ResourceExhausted, "c09")
+	case "typed-nil-error":
+		var e *c09iErr
+		return nil, e
+	case "deadline":
+		return nil, context.DeadlineExceeded
+	case "error":
+		return nil, errors.New("c09")
+	case "panic":
+		panic("c09 handler panic")
+	}
+	return "ok", nil
+}
+
+// c09iOverlapInterp: several calls in flight at once through ONE interceptor value.
+// Plain goroutines and channels, no clock: a call is started, the harness waits until
+// it either returned (rejected) or sits in its handler, then starts the next; the
+// parked calls are completed in the generated order. Every admitted call must have
+// reported exactly once ON ITS OWN promise when it has returned.
+func c09iOverlapInterp(c c09iCase) (v kit.Verdict) {
+	type call struct {
+		rq       c09iReq
+		started  chan struct{}
+		release  chan struct{}
+		returned chan struct{}
+		ran      int32
+		prom     *c09iPromise
+		err      error
+		panicked bool
+	}
+	if len(c.Reqs) > 64 {
+		v.Excluded = true
+		return v
+	}
+	sh := &c09iShedder{}
+	icpt := UnarySheddingInterceptor(sh, c09Metrics)
+	var parked []*call
+	rejected, admitted := 0, 0
+	releaseAll := func() {
+		for _, cl := range parked {
+			close(cl.release)
+			<-cl.returned
+		}
+	}
+	for i, rq := range c.Reqs {
+		cl := &call{rq: rq, started: make(chan struct{}), release: make(chan struct{}), returned: make(chan struct{})}
+		sh.admit, sh.last, sh.calls = rq.Admit, nil, 0
+		method := rq.Method
+		if method == "" {
+			method = "/c09"
+		}
+		go func() {
+			defer close(cl.returned)
+			defer func() {
+				if r := recover(); r != nil {
+					cl.panicked = true
+				}
+			}()
+			_, cl.err = icpt(context.Background(), nil, &grpc.UnaryServerInfo{FullMethod: method}, func(ctx context.Context, req interface{}) (interface{}, error) {
+				cl.ran++
+				close(cl.started)
+				<-cl.release
+				return c09iHandlerResult(cl.rq.Beh)
+			})
+		}()
+		what := fmt.Sprintf("overlapping request %d %+v", i, rq)
+		select {
+		case <-cl.started:
+			if !rq.Admit {
+				releaseAll()
+				close(cl.release)
+				return v.Failf("%s: rejected by the shedder but the handler ran", what)
+			}
+			if sh.calls != 1 || sh.last == nil {
+				releaseAll()
+				close(cl.release)
+				return v.Failf("%s: Allow called %d times", what, sh.calls)
+			}
+			cl.prom = sh.last
+			parked = append(parked, cl)
+			admitted++
+		case <-cl.returned:
+			if rq.Admit {
+				releaseAll()
+				return v.Failf("%s: admitted but the call returned (err %v, panicked %v) without its handler having run", what, cl.err, cl.panicked)
+			}
+			if cl.err != load.ErrServiceOverloaded || sh.calls != 1 {
+				releaseAll()
+				return v.Failf("%s: rejected by the shedder but the interceptor returned %v (Allow called %d times)", what, cl.err, sh.calls)
+			}
+			rejected++
+		}
+	}
+	inFlight := len(parked)
+	for k := 0; len(parked) > 0; k++ {
+		j := 0
+		if k < len(c.Order) && c.Order[k] > 0 {
+			j = c.Order[k] % len(parked)
+		}
+		cl := parked[j]
+		parked = append(parked[:j], parked[j+1:]...)
+		close(cl.release)
+		<-cl.returned
+		if n := cl.prom.pass + cl.prom.fail; n != 1 || cl.ran != 1 || cl.panicked != (cl.rq.Beh == "panic") {
+			others := len(parked)
+			releaseAll()
+			return v.Failf("request %+v, completed while %d other calls were in flight through the same interceptor, reported %d times on its own promise (pass %d, fail %d; handler ran %d times, panicked %v): the shedder's in-flight count cannot return to zero",
+				cl.rq, others, n, cl.prom.pass, cl.prom.fail, cl.ran, cl.panicked)
+		}
+		v.Classes = append(v.Classes, "beh-"+cl.rq.Beh)
+	}
+	v.Classes = append(v.Classes, "overlap")
+	if inFlight > 1 {
+		v.Classes = append(v.Classes, "overlap>=2-in-flight")
+	}
+	v.NonTrivial = inFlight > 1
+	_ = rejected
+	return v
+}
+
 func c09iInterp(c c09iCase) (v kit.Verdict) {
+	if c.Overlap {
+		return c09iOverlapInterp(c)
+	}
 	sh := &c09iShedder{}
 	icpt := UnarySheddingInterceptor(sh, c09Metrics)
 	rejected, admitted := 0, 0
@@ -195,6 +336,11 @@ func TestVerif_C09_shedding_interceptor(t *testing.T) {
 					rq.Md = append(rq.Md, [2]string{h[0], rapid.SampledFrom(h[1:]).Draw(rt, "mdv")})
 				}
 				c.Reqs = append(c.Reqs, rq)
+			}
+			if c.Overlap = rapid.IntRange(0, 3).Draw(rt, "overlap") == 0; c.Overlap {
+				for i := 0; i < n; i++ {
+					c.Order = append(c.Order, rapid.IntRange(0, n-1).Draw(rt, "ord"))
+				}
 			}
 			return c
 		}, c09iInterp)
